@@ -877,7 +877,9 @@ Examples:
                 mask = zeros(xp.size, dtype=bool)
                 for i in index[0]: # out-of-range members are ignored
                     if -mask.size <= i < mask.size: mask[i] = True
-            xp = choose(mask, (x,xp)).astype(_ints[0])
+            xp = choose(mask, (x,xp))
+            xi = xp.astype(_ints[0])
+            if (xi == xp).all(): xp = xi # never truncate entries that were not selected
             ###############
             return f(xtype(xp), *args, **kwds)
         func.index = _index
